@@ -156,11 +156,14 @@ def tla_bool(b):
 
 TRACE_JAVA = "-Xss1g -Xmx3g -Dtlc2.tool.queue.IStateQueue=StateDeque"
 
-def split_trace(path, nchunks, wd):
-    """Split an ndjson trace at `reset` boundaries into at most nchunks files."""
+def split_trace(path, nchunks, wd, independent=False):
+    """Split an ndjson trace at `reset` boundaries (or anywhere, if every line stands for itself)
+    into at most nchunks files."""
     with open(path) as f:
         lines = f.readlines()
-    starts = [i for i, l in enumerate(lines) if '"ev":"reset"' in l]
+    if not lines:
+        raise ToolError(f"trace {path} is empty")
+    starts = list(range(len(lines))) if independent else [i for i, l in enumerate(lines) if '"ev":"reset"' in l]
     if not starts:
         raise ToolError(f"trace {path} has no reset events")
     per = max(1, (len(lines) + nchunks - 1) // nchunks)
@@ -209,14 +212,14 @@ def _validate_chunk(args):
         return {"error": f"trace validation consumed {result['lines']} of {nlines} lines ({outp})"}
     return {"result": result, "out": outp}
 
-def validate_trace(module, trace, prop, name, cfg_text, nchunks=8, extra_env=None):
+def validate_trace(module, trace, prop, name, cfg_text, nchunks=8, extra_env=None, independent=False):
     """Validate an ndjson trace with spec/<module>.tla (a monitor-style trace spec).  Returns
     merged stats and the list of violation records."""
     wd = workdir("val-" + name)
     cfgpath = os.path.join(wd, "trace.cfg")
     with open(cfgpath, "w") as f:
         f.write(cfg_text)
-    chunks, total = split_trace(trace, nchunks, wd)
+    chunks, total = split_trace(trace, nchunks, wd, independent)
     jobs = [(module, cfgpath, c, n, prop, wd, k, extra_env) for k, (c, n) in enumerate(chunks)]
     stats, viols = {}, []
     with concurrent.futures.ThreadPoolExecutor(max_workers=min(len(jobs), nchunks)) as ex:
